@@ -1,4 +1,40 @@
+(* C07: what today's code (the `_current` parameters of the model) violates. Witnesses closed by vm_compute. *)
 From Coq Require Import ZArith List Bool.
 From OG Require Import C07.Model.
 Import ListNotations.
 Open Scope Z_scope.
+
+Definition nz : Z := M63.                       (* the bit pattern of -0.0 *)
+Definition no_c (x : list Z) : list Z := x.
+Definition no_d (x : list Z) : option (list Z) := Some x.
+Definition gor_fail (x : list Z) : option (list Z) := None.   (* a gorilla encoder that reports an error; it satisfies the
+                                                                  round-trip hypothesis (which only speaks about successes) *)
+
+(* C07-negzero-same: today's selection (float equality) puts a column of -0.0 in same-value mode and the zero test on
+   the float drops the value: the block decodes to +0.0 *)
+Theorem C07_negzero_same_refuted : exists vs bs,
+  words_ok vs = true /\
+  float_encode no_c gor_fail no_c zero_current (fun _ => false) f_eq false vs = Ok bs /\
+  float_dec no_d no_d no_d bs <> Some vs /\ float_dec no_d no_d no_d bs = Some [0; 0; 0; 0; 0].
+Proof.
+  exists [nz; nz; nz; nz; nz], [64; 0; 5]. vm_compute. repeat split; congruence.
+Qed.
+Print Assumptions C07_negzero_same_refuted.
+
+(* the same for the mode-level statement: same-value mode is "applicable" in today's sense but does not round-trip *)
+Theorem C07_same_mode_current_refuted : exists vs,
+  float_applicable_current gor_fail FSame vs = true /\
+  float_dec no_d no_d no_d (float_enc_with no_c gor_fail no_c zero_current FSame vs) <> Some vs.
+Proof. exists [0; nz; 0; nz; 0; 0]. vm_compute. split; congruence. Qed.
+
+(* C07-gorilla-error-path: when the gorilla encoder reports an error (tsm1 does for a column whose sum is NaN, e.g.
+   +Inf and -Inf present) today's encoder panics instead of falling back; encode_total fails for `_current` *)
+Theorem C07_gorilla_error_refuted : exists vs,
+  words_ok vs = true /\ (forall g, gor_fail vs = Some g -> no_d g = Some vs) /\
+  float_encode no_c gor_fail no_c zero_current (fun _ => false) f_eq false vs = Panic.
+Proof.
+  exists [4562254508917369340; 4612811918334230528; 9218868437227405312; 18442240474082181120; 4562254508917369340;
+          13837309855095848960; 9094988921128908188; 13837309855095848960; 4607182418800017408].
+  split; [vm_compute; reflexivity|]. split; [intros g H; discriminate|]. vm_compute. reflexivity.
+Qed.
+Print Assumptions C07_gorilla_error_refuted.
